@@ -108,6 +108,9 @@ CONFIGS = {
   "x4pool": dict(np=4, prio=[0, 0, 0, 1], auto=[1, 1, 1, 1], nres=1, poolcap=2, maxlen=3, maxtime=3,
                alphabet=[I("hold", 1), I("pacq", 1), I("pacq", 2), I("prel", 1), I("prel", 2), I("tadd", 1, -5), I("intr", 2, 9, 0), I("stop", 2, 5), I("prio", 3, 2), I("ppre", 1)],
                roles=[["hold", "pacq", "prel"], ["hold", "pacq", "tadd"], ["hold", "pacq", "prel"], ["hold", "intr", "stop", "prio", "ppre"]]),
+  # not explored by TLC: the constants under which the MODEL is run on the fixed-shape random programs (profile soupfix)
+  "soupfix": dict(np=4, prio=[0, 0, 1, 2], auto=[1, 1, 1, 1], nres=1, poolcap=2, bufcap=2, oqcap=1, pqcap=1, maxlen=12, maxtime=99,
+               alphabet=[I("hold", 1)]),
   # subscribe / unsubscribe: is a release forwarded exactly while the condition is registered?
   "cond2u": dict(np=2, prio=[0, 0], auto=[1, 1], nres=1, poolcap=1, maxlen=5, maxtime=4,
                alphabet=[I("hold", 1), I("cwait", 2), I("csub", 0), I("cunsub", 0), I("acq", 1), I("rel", 1)]),
